@@ -71,6 +71,7 @@ static unsigned audit_n;
 static struct set_node *audit_prev;
 static struct set *audit_set;
 
+#ifndef H_SET_NO_AUDIT
 static void audit_walk(struct set_node *n, unsigned depth)
 {
     if (!n || audit_fail) return;
@@ -86,6 +87,7 @@ static void audit_walk(struct set_node *n, unsigned depth)
     audit_n++;
     audit_walk(n->r, depth + 1);
 }
+#endif
 
 static void run_case(char **lines, int n)
 {
@@ -186,10 +188,15 @@ static void run_case(char **lines, int n)
             break;
         }
         case 'B': {
-            struct set_node *it = set->root;
+            struct set_node *it;
             int first = 1;
             printf("back ");
+#ifndef H_SET_NO_AUDIT
+            it = set->root;
             if (it) while (it->r) it = it->r;
+#else
+            {   struct set_node *nx; it = set_first(set); while (it && (nx = set_next(it))) it = nx; }
+#endif
             for (; it; it = set_prev(it)) {
                 printf("%s%u", first ? "" : ",", ((struct elem *)set_node_data(it))->uid);
                 first = 0;
@@ -201,11 +208,19 @@ static void run_case(char **lines, int n)
             printf("size %u\n", set_size(set));
             break;
         case 'A':
+#ifndef H_SET_NO_AUDIT
             audit_fail = NULL; audit_n = 0; audit_prev = NULL; audit_set = set;
             audit_walk(set->root, 0);
             if (!audit_fail && audit_prev && audit_prev->next) audit_fail = "last-has-next";
             if (!audit_fail && audit_n != set_size(set)) audit_fail = "count";
             printf("audit %s\n", audit_fail ? audit_fail : "ok");
+#else
+            {   /* without access to the node fields: the public walk must visit set_size() elements */
+                struct set_node *it; unsigned k = 0;
+                for (it = set_first(set); it; it = set_next(it)) k++;
+                printf("audit %s\n", k == set_size(set) ? "ok" : "count");
+            }
+#endif
             break;
         default:
             printf("bad-op\n");
